@@ -38,4 +38,31 @@ theorem render_spec_holds (failAt : Option Nat) (h : List Op) :
     exact ⟨rfl, by rw [renders]; rfl⟩
   simp only [hany, if_true]
 
+
+/-- **Every emitted event carries, as a whole, the identity of one delivered login** — for every history and every
+write oracle. -/
+theorem whole_identity_spec_holds (failAt : Option Nat) (h : List Op) :
+    specWholeIdentity h (modelObs failAt h).1 = none := by
+  have htag := AM.C04S.runTrace_tagged h [] h { failAt := failAt } [] rfl (inv_init failAt) (by simp)
+  simp only [List.length_nil] at htag
+  unfold specWholeIdentity modelObs
+  generalize runTrace { failAt := failAt } 0 h [] = r at htag
+  obtain ⟨ems, st, e, eat⟩ := r
+  simp only
+  apply List.findSome?_eq_none_iff.mpr
+  intro a ha
+  obtain ⟨p, hp, rfl⟩ := List.mem_map.mp ha
+  obtain ⟨_, hlg, _⟩ := htag p hp
+  obtain ⟨j, _, hgj⟩ := AM.C04S.loginsOf_take h (p.2 + 1) p.1.login hlg
+  have hlog : (j, p.1.login) ∈ loginOps h := by
+    unfold loginOps idxOps
+    apply List.mem_filterMap.mpr
+    exact ⟨(j, .remoteLogin p.1.login), (AM.C04S.mem_zip_range h j _).mpr hgj, rfl⟩
+  have hany : ((loginOps h).any fun l => decide (identOf l.2 =
+      (⟨(toAuditEvent p.1.login p.1.ev).1, (toAuditEvent p.1.login p.1.ev).2.1,
+        (toAuditEvent p.1.login p.1.ev).2.2, p.2⟩ : ObsAction).identity)) = true := by
+    apply List.any_eq_true.mpr
+    exact ⟨(j, p.1.login), hlog, by simp [identOf, ObsAction.identity, toAuditEvent]⟩
+  simp only [hany, if_true]
+
 end AM.C14S
